@@ -13,7 +13,8 @@ import time
 
 ROOT = os.path.dirname(os.path.dirname(os.path.abspath(__file__)))
 MODS = {"C05": (["contracts.units"], 6), "C06": (["contracts.units"], 6), "C19": (["contracts.units", "contracts.motor", "contracts.gears"], 6),
-        "C08": (["contracts.motor"], 400), "C09": (["contracts.gears"], 100), "C07": (["contracts.motor", "contracts.gears"], 100)}
+        "C10": (["contracts.relations"], 20), "C14": (["contracts.control"], 100), "C15": (["contracts.control"], 100),
+        "C16": (["contracts.control"], 100), "C08": (["contracts.motor"], 400), "C09": (["contracts.gears"], 100), "C07": (["contracts.motor", "contracts.gears"], 100)}
 
 
 def extra_checks(prop, tier, seed):
